@@ -313,6 +313,8 @@ func outOf(resp interface{}) Outj {
 		switch {
 		case strings.Contains(s, "there must be exactly one active CA"):
 			return Outj{K: "err", E: "one_active"}
+		case strings.Contains(s, "is replaced by a later entry with the same ID"):
+			return Outj{K: "err", E: "active_overwritten"}
 		case errors.Is(v, state.ErrMissingCARootID):
 			return Outj{K: "err", E: "missing_id"}
 		case strings.Contains(s, "ModifyIndex did not match existing"):
